@@ -38,7 +38,7 @@ class ReplaceFlaskSendFile(SimpleCodemod, NameAndAncestorResolutionMixin):
     def leave_Call(
         self, original_node: cst.Call, updated_node: cst.Call
     ) -> cst.BaseExpression:
-        if self.filter_by_path_includes_or_excludes(original_node):
+        if self.filter_by_path_includes_or_excludes(self.node_position(original_node)):
             maybe_base_name = self.find_base_name(original_node)
             if maybe_base_name and maybe_base_name == "flask.send_file":
                 maybe_tuple = self.parameterize_path(original_node.args[0])
